@@ -43,6 +43,13 @@ def import_pyteal():
     # PyTeal formats a traceback for every Expr it constructs; linecache.checkcache then stat()s every source file
     # on the (deep) stack each time. Sources do not change during a run: skip the re-validation (harness-side only).
     linecache.checkcache = lambda filename=None: None
+    if os.environ.get("VERIF_FULL_TRACES") != "1":
+        # Every Expr.__init__ calls traceback.format_stack() (used only for the text of getDefinitionTrace()); under
+        # Hypothesis + the recursive recipe builder the stack is ~100 frames deep and this costs ~4 ms per node, i.e.
+        # >80 % of a run. Harness-side stub (no source change; compile output does not depend on it).
+        import traceback
+
+        traceback.format_stack = lambda f=None, limit=None: ["<definition trace disabled by the verification harness>\n", ""]
     import pyteal  # noqa
 
     f = os.path.realpath(pyteal.__file__)
